@@ -262,7 +262,7 @@ func (a *AggregatePlan) batchGetAggrKeys(chunk []KVPair, ctx *ExecuteCtx) ([]str
 			if err != nil {
 				return nil, err
 			}
-			aggKey = append(aggKey, bval...)
+			aggKey = appendAggrKey(aggKey, bval)
 		}
 		ret[i] = string(aggKey)
 	}
@@ -509,9 +509,16 @@ func (a *AggregatePlan) getAggrKey(key []byte, val []byte, ctx *ExecuteCtx) (str
 		if err != nil {
 			return "", err
 		}
-		gkey += string(bval)
+		gkey = string(appendAggrKey([]byte(gkey), bval))
 	}
 	return gkey, nil
+}
+
+// appendAggrKey appends one group by value to the group key, the value is
+// prefixed by its length so ('a', 'bc') and ('ab', 'c') are different keys
+func appendAggrKey(key []byte, val []byte) []byte {
+	key = append(key, []byte(fmt.Sprintf("%d:", len(val)))...)
+	return append(key, val...)
 }
 
 func (a *AggregatePlan) execExpr(kvp KVPair, expr Expression, ctx *ExecuteCtx) ([]byte, error) {
